@@ -15,6 +15,7 @@ import (
 	"os"
 	"path/filepath"
 	"runtime"
+	"runtime/debug"
 	"sort"
 	"strings"
 	"sync"
@@ -89,7 +90,14 @@ type PipeSpec struct {
 	TempInJob   bool     `json:"temp_in_job"` // --warc-temp-dir = the job directory itself (legal, unusual): nothing of the job may be deleted at stop
 	SlowPoint   string   `json:"slow_point"`   // every event at this hook point takes SlowMs longer (a slow disk, a slow queue: any schedule is allowed)
 	SlowMs      int      `json:"slow_ms"`
+	Outage5xx   int      `json:"outage_5xx"`   // origin host A answers 503 to its first Outage5xx requests, whatever the URL, and serves the site afterwards (a host that is down while its URLs are retried: consecutive 5xx, nothing in between) (C03)
+	StopBoundMs int      `json:"stop_bound_ms"` // > 0: controler.Stop() has this long to return, counted from the stop request; afterwards the run is given up (TimedOut, StopOverdue) without sitting out the rest of TimeoutMs (C03)
 	DiskLowMs   int      `json:"disk_low_ms"`  // after this many ms the job volume counts as full (--min-space-required raised): the real disk watcher pauses the pipeline at its next tick
+	ExpectReports int    `json:"expect_reports"` // > 0: quiescence is only decided once the QUEUE has been seen holding a finish report (event lq.report) for this many of the rows of LQRows - or nothing at all has moved for 25 s (0 = not waited for, the behaviour before this field existed)
+	LogFile     bool     `json:"log_file"`     // file logging ON (the crawler's default; every other run of this harness switches it off): the REAL log.Start() of controler.Start() opens <job>/logs/...
+	LogRotation string   `json:"log_rotation"` // --log-file-rotation (a Go duration, "" = never): the real rotation worker re-opens the log file every period
+	LogLevel    string   `json:"log_level"`    // --log-file-level ("" = info)
+	NoGC        bool     `json:"no_gc"`        // the garbage collector stays off while the heap is below 1 GiB: a descriptor whose Close() was lost is then not closed behind the scenes by its finalizer (os.File, net.Conn) and stays visible in /proc/self/fd
 }
 
 type PipeResult struct {
@@ -114,6 +122,10 @@ type PipeResult struct {
 	Events        int            `json:"events"`
 	PausedAtStop  bool           `json:"paused_at_stop"`
 	QuiescentAtMs int64          `json:"quiescent_at_ms"`
+	StopOverdue   bool           `json:"stop_overdue,omitempty"` // StopBoundMs ran out before controler.Stop() returned
+	FDKinds       map[string]int `json:"fd_kinds,omitempty"` // Footprint runs: the descriptors counted in FDs by what they point to (log, warc, temp, db, sock, pipe, other)
+	HeapMB        int            `json:"heap_mb,omitempty"`  // Footprint runs: heap in use and completed collections when the footprint was read (informative: with NoGC, NumGC == 0 says that no finalizer can have closed anything)
+	NumGC         int            `json:"num_gc,omitempty"`
 }
 
 type evLog struct {
@@ -164,6 +176,10 @@ func runPipeChild(specPath string) {
 	must(json.Unmarshal(raw, &sp))
 	must(os.MkdirAll(sp.Dir, 0o755))
 	must(os.Chdir(sp.Dir))
+	if sp.NoGC {
+		debug.SetMemoryLimit(1 << 30) // soft limit: beyond it the collector works again
+		debug.SetGCPercent(-1)
+	}
 	runN := 1
 	for {
 		if _, err := os.Stat(fmt.Sprintf("events.%d.log", runN)); err != nil {
@@ -192,6 +208,7 @@ func runPipeChild(specPath string) {
 	}
 	hostA, hostB := fmt.Sprintf("127.0.0.2:%d", port), fmt.Sprintf("127.0.0.3:%d", port)
 	site := &e2eSite{seed: sp.SiteSeed, mode: sp.SiteMode, hostA: hostA, hostB: hostB, hostX: fmt.Sprintf("127.0.0.9:%d", port), attempts: map[string]int{}}
+	site.outage = sp.Outage5xx
 	srv := &http.Server{Handler: site}
 	go srv.Serve(lnA)
 	go srv.Serve(lnB)
@@ -243,6 +260,9 @@ func runPipeChild(specPath string) {
 		c.HTTPTimeout = sp.HTTPTimeout
 	}
 	c.NoStdoutLogging, c.NoStderrLogging, c.NoFileLogging = true, true, true
+	if sp.LogFile { // the log file goes below the job's directory (LogFileOutputDir "" = <job>/logs), opened and rotated by the real log package
+		c.NoFileLogging, c.LogFileOutputDir, c.LogFilePrefix, c.LogFileRotation, c.LogFileLevel = false, "", "ZENO", sp.LogRotation, sp.LogLevel
+	}
 	c.ExcludeHosts = []string{"127.0.0.9"}
 	c.UserAgent = "zv-e2e"
 	if sp.Proxy {
@@ -287,8 +307,19 @@ func runPipeChild(specPath string) {
 	var writtenMu sync.Mutex
 	var openBodies atomic.Int64 // nodes found holding a body after post-processing (must stay 0)
 	var sawInsert atomic.Bool // quiescence is only meaningful once the queue has started handing out rows
+	// the queue's side of "reported back as finished": the batches its finisher is seen holding at lq.delete. A batch is
+	// remembered by the address of its first element (and kept alive, so that no later batch can have that address): the
+	// sender's retry loop passes the same batch through the hook point again, which is not a second report.
+	var repMu sync.Mutex
+	repBatches := map[*sqlc_model.Url][]sqlc_model.Url{}
+	repRows, lqRowSet := map[string]bool{}, map[string]bool{}
+	for _, r := range sp.LQRows {
+		lqRowSet[r.ID] = true
+	}
+	var reportedRows atomic.Int64
 	var stopOnce sync.Once
 	stopDone := make(chan struct{})
+	stopOverdue := make(chan struct{}) // closed StopBoundMs after the stop request (never when StopBoundMs == 0)
 	t0 := time.Now()
 	doStop := func() {
 		stopOnce.Do(func() {
@@ -297,6 +328,9 @@ func runPipeChild(specPath string) {
 				res.PausedAtStop = pause.IsPaused()
 				evlog.write("stop.call")
 				ts := time.Now()
+				if sp.StopBoundMs > 0 {
+					time.AfterFunc(time.Duration(sp.StopBoundMs)*time.Millisecond, func() { close(stopOverdue) })
+				}
 				if sp.StopSignal != "" {
 					// WatchSignals() runs controler.Stop() and then os.Exit(0): leave what is known so far for the parent
 					if out, err := json.Marshal(res); err == nil {
@@ -339,6 +373,23 @@ func runPipeChild(specPath string) {
 			}
 		}
 		evlog.write(point, fields...)
+		if a, ok := arg.([]sqlc_model.Url); ok && point == "lq.delete" && len(a) > 0 {
+			repMu.Lock()
+			_, again := repBatches[&a[0]]
+			if !again {
+				repBatches[&a[0]] = a
+				for _, u := range a {
+					if lqRowSet[u.ID] && !repRows[u.ID] {
+						repRows[u.ID] = true
+						reportedRows.Add(1)
+					}
+				}
+			}
+			repMu.Unlock()
+			if !again {
+				evlog.write("lq.report", fields...) // one id per finish report the queue received in this batch
+			}
+		}
 		// C02 end to end: at the moment a seed is reported finished, every response the WARC writer
 		// acknowledged for it must be readable from the job's WARC files (sync mode)
 		if it, ok := arg.(*models.Item); ok && !sp.Async {
@@ -471,6 +522,14 @@ loop:
 		select {
 		case <-stopDone:
 			break loop
+		case <-stopOverdue:
+			select {
+			case <-stopDone: // returned at the last moment
+			default:
+				res.TimedOut, res.StopOverdue = true, true
+				evlog.write("stop.overdue", fmt.Sprint(sp.StopBoundMs))
+			}
+			break loop
 		case <-deadline:
 			res.TimedOut = true
 			res.IdleAtTimeout = time.Since(time.Unix(0, lastEvent.Load())).Milliseconds()
@@ -498,7 +557,10 @@ loop:
 			// (a restarted job may have nothing left to hand out: then no insert ever comes and 12 s decide;
 			// on a loaded machine the queue can take longer than the idle window to hand out its first row - deciding
 			// "quiescent" before that left the rows unfetched and made the restart monitors of C04 fire falsely)
-			if (sp.Expect > 0 && int(finished.Load()) >= sp.Expect && quiet) || (sp.Expect == 0 && quiet) {
+			// (ExpectReports: the queue batches the reports it receives and flushes a batch that is not full after at most 5 s)
+			reportsSeen := sp.ExpectReports == 0 || int(reportedRows.Load()) >= sp.ExpectReports ||
+				time.Since(time.Unix(0, lastEvent.Load())) > 25*time.Second
+			if reportsSeen && ((sp.Expect > 0 && int(finished.Load()) >= sp.Expect && quiet) || (sp.Expect == 0 && quiet)) {
 				{ // a stop point that was never reached: stop at quiescence all the same
 					res.QuiescentAtMs = time.Since(t0).Milliseconds()
 					res.StateAtQuiet = len(reactor.GetStateTable())
@@ -508,6 +570,7 @@ loop:
 						// to 5 s and keep the minimum of each count (a leak never goes down, a wind-down does)
 						time.Sleep(300 * time.Millisecond)
 						res.FDs, res.Goroutines, res.TempFiles = footprint(c.WARCTempDir)
+						res.FDKinds = fdKinds(c.JobPath, c.WARCTempDir)
 						for i, stable := 0, 0; i < 47 && stable < 8; i++ {
 							time.Sleep(100 * time.Millisecond)
 							f, g, t := footprint(c.WARCTempDir)
@@ -516,11 +579,17 @@ loop:
 							} else {
 								stable = 0
 							}
+							if f < res.FDs { // the breakdown belongs to the reading that is kept
+								res.FDKinds = fdKinds(c.JobPath, c.WARCTempDir)
+							}
 							res.FDs, res.Goroutines, res.TempFiles = min(res.FDs, f), min(res.Goroutines, g), min(res.TempFiles, t)
 						}
 						res.Tokens = reactor.VerifTokensInUse()
 						res.Buckets, res.MaxBuckets = archiver.VerifLimiterTable()
 						res.OpenBodies = int(openBodies.Load())
+						var ms runtime.MemStats
+						runtime.ReadMemStats(&ms)
+						res.HeapMB, res.NumGC = int(ms.HeapAlloc>>20), int(ms.NumGC)
 					}
 					res.Stats["workers_live"] = int(stats.PreprocessorRoutinesGet() + stats.ArchiverRoutinesGet() + stats.PostprocessorRoutinesGet())
 					stopRequested = true // doStop sets res.StopCalled from its own goroutine: do not measure a second time meanwhile
@@ -529,9 +598,11 @@ loop:
 			}
 		}
 	}
-	if res.StopCalled && !res.StopReturned {
+	if res.StopCalled && !res.StopReturned && !res.StopOverdue {
 		select {
 		case <-stopDone:
+		case <-stopOverdue:
+			res.TimedOut, res.StopOverdue = true, true
 		case <-time.After(time.Duration(sp.TimeoutMs) * time.Millisecond / 2):
 			res.TimedOut = true
 		}
@@ -561,6 +632,50 @@ func footprint(tempDir string) (fds, goroutines, temps int) {
 	return
 }
 
+// fdKinds: the open descriptors of this process by what they point to, so that a growing count names what leaked.
+func fdKinds(jobPath, tempDir string) map[string]int {
+	abs := func(p string) string {
+		if a, err := filepath.Abs(p); err == nil {
+			if r, err := filepath.EvalSymlinks(a); err == nil {
+				return r
+			}
+			return a
+		}
+		return p
+	}
+	job, temp := abs(jobPath), abs(tempDir)
+	under := func(target, dir string) bool { return strings.HasPrefix(target, dir+"/") }
+	kinds := map[string]int{}
+	ents, err := os.ReadDir("/proc/self/fd")
+	if err != nil {
+		return kinds
+	}
+	for _, e := range ents {
+		target, err := os.Readlink(filepath.Join("/proc/self/fd", e.Name()))
+		if err != nil {
+			continue // the descriptor of the directory listing itself
+		}
+		target = strings.TrimSuffix(target, " (deleted)")
+		switch {
+		case strings.HasPrefix(target, "socket:"):
+			kinds["sock"]++
+		case strings.HasPrefix(target, "pipe:"):
+			kinds["pipe"]++
+		case under(target, filepath.Join(job, "logs")):
+			kinds["log"]++
+		case under(target, temp):
+			kinds["temp"]++
+		case strings.Contains(target, ".warc"):
+			kinds["warc"]++
+		case strings.Contains(target, ".db") || strings.Contains(target, "seencheck"):
+			kinds["db"]++
+		default:
+			kinds["other"]++
+		}
+	}
+	return kinds
+}
+
 // ---- the origin server ---------------------------------------------------------------------
 
 type e2eSite struct {
@@ -569,6 +684,7 @@ type e2eSite struct {
 	hostA, hostB, hostX string
 	mu                  sync.Mutex
 	attempts            map[string]int
+	outage, outageSeen  int // host A answers 503 to its first [outage] requests (PipeSpec.Outage5xx)
 }
 
 // resource: what the origin serves for a URL, a deterministic function of (site seed, URL)
@@ -624,6 +740,33 @@ func (s *e2eSite) lookup(url string) resource {
 		host = s.hostB
 	}
 	isSeed := strings.Contains(url, "/s")
+	if s.mode == "statuses" && isSeed {
+		// (C04) most seeds' own URLs are answered with a status that is neither a success nor a redirect and that the default
+		// discard policy KEEPS: client and server errors with small or empty bodies, and answers that carry only ONE of the two
+		// marks of a Cloudflare challenge page (a plain 403; "cf-mitigated: challenge" on another status). One in thirteen is a
+		// real challenge page (403 AND the header), which is discarded. Its own random stream: the other modes are unchanged.
+		// A function of the site seed and the path + query only (not of the port, which differs from job to job): a stored
+		// input meets the same statuses every time.
+		pq := url
+		if i := strings.Index(pq, "://"); i >= 0 {
+			if j := strings.Index(pq[i+3:], "/"); j >= 0 {
+				pq = pq[i+3+j:]
+			}
+		}
+		q := mix(s.seed, pq+"#status")
+		if k := q.Intn(17); k < 13 {
+			st := []struct {
+				code int
+				cf   bool
+			}{{401, false}, {403, false}, {403, false}, {404, false}, {410, false}, {451, false}, {500, false}, {502, false},
+				{429, false}, {408, false}, {200, true}, {404, true}, {403, true}}[k]
+			body := []byte(fmt.Sprintf("<html><body>status %d <img src=\"/never.png\"></body></html>", st.code))
+			if q.Chance(25) {
+				body = nil
+			}
+			return resource{status: st.code, ctype: "text/html", body: body, cfMitigate: st.cf, chunked: q.Chance(30)}
+		}
+	}
 	c := r.Intn(24)
 	if isSeed && c <= 7 && r.Chance(80) {
 		c = 12
@@ -727,7 +870,22 @@ func (s *e2eSite) ServeHTTP(w http.ResponseWriter, req *http.Request) {
 	s.mu.Lock()
 	s.attempts[url]++
 	att := s.attempts[url]
+	down := s.outage > 0 && req.Host == s.hostA && s.outageSeen < s.outage
+	if down {
+		s.outageSeen++
+	}
 	s.mu.Unlock()
+	if down { // the host is down: 503 for every URL, nothing else in between
+		body := []byte("outage")
+		sum := sha1.Sum(body)
+		evlog.write("origin", url, "503", hex.EncodeToString(sum[:]), fmt.Sprint(len(body)), fmt.Sprint(att))
+		lastEvent.Store(time.Now().UnixNano())
+		w.Header().Set("Content-Type", "text/plain")
+		w.Header().Set("Content-Length", fmt.Sprint(len(body)))
+		w.WriteHeader(503)
+		w.Write(body)
+		return
+	}
 	if res.stall {
 		evlog.write("origin", url, "0", "-", "0", fmt.Sprint(att))
 		lastEvent.Store(time.Now().UnixNano())
